@@ -293,7 +293,7 @@ pub fn run(g: &mut Global) {
         &check,
     );
     let cap = g.tier.pick(256usize, 2048usize);
-    g.random("random", g.tier.pick(40000, 300000), &move || strategy(cap, false), &check);
+    g.random("random", g.tier.pick(100000, 400000), &move || strategy(cap, false), &check);
     if g.tier == Tier::Thorough {
         g.random("deep", 3000, &move || strategy(64, true), &check);
     }
